@@ -67,6 +67,18 @@ def trace(detector, **kwargs):
     })
 
 
+def trace_sig(detector, gain=2.0, offset=1, label="dflt", flag=True, opt=None, tag=None):
+    """As `trace`, for a model with declared parameters that all have defaults: logs the value received for every one of them."""
+    _log({
+        "tag": tag,
+        "kw": copy.deepcopy(_jsonable({"gain": gain, "offset": offset, "label": label, "flag": flag, "opt": opt, "tag": tag})),
+        "step": int(detector.pipeline_count),
+        "det": id(detector),
+        "name": detector.current_running_model_name,
+        "run": _run_marker(detector),
+    })
+
+
 def _run_marker(detector):
     """A value identifying the parameter run: the detector's temperature (swept by the checks)."""
     try:
